@@ -58,7 +58,9 @@ const ERF_A5: f64 = 1.061405429;
 /// # Remarks
 /// Uses Equation 7.1.26 in Stegun in combination with Horner's Rule.
 pub fn erf(x: f64) -> f64 {
-    if x >= 0. {
+    // branch on the sign bit, not on an order comparison: -0.0 is then mirrored like every other negative
+    // argument (erf(-0.0) == -erf(0.0)), and a NaN takes the formula once instead of recursing for ever
+    if x.is_sign_positive() {
         let t = 1. / (1. + ERF_P * x);
         1. - (((((ERF_A5 * t + ERF_A4) * t) + ERF_A3) * t + ERF_A2) * t + ERF_A1)
             * t
